@@ -714,6 +714,16 @@ func (db *DB) rollbackJournalSegment(ctx context.Context, r *JournalReader, dbFi
 			return fmt.Errorf("read frame(%d): %w", i, err)
 		}
 
+		// Like SQLite, a record for page zero ends the playback and a record
+		// for a page past the size the database had when the journal was
+		// started is skipped. Neither can belong to this database, and writing
+		// it would extend the file and the checksum table to that page number.
+		if pgno == 0 {
+			return nil
+		} else if pgno > r.commit {
+			continue
+		}
+
 		// Write data to the database file.
 		if err := db.writeDatabasePage(dbFile, pgno, data, true); err != nil {
 			return fmt.Errorf("write to database (pgno=%d): %w", pgno, err)
